@@ -776,14 +776,64 @@ static void janet_chan_init(JanetChannel *chan, int32_t limit, int threaded) {
     janet_os_mutex_init((JanetOSMutex *) &chan->lock);
 }
 
+#ifdef JANET_VERIF
+/* Verification hook H2: seeded schedule perturbation at cross-thread hand-off
+ * points. Off unless JANET_VERIF_PERTURB=<seed>:<permille> is set. All call
+ * sites are outside critical sections. */
+#include <sched.h>
+#include <time.h>
+volatile JanetAtomicInt janet_verif_site_hits[JANET_VERIF_NSITES];
+static JANET_THREAD_LOCAL struct {
+    int mode; /* 0 unread, 1 off, 2 on */
+    uint64_t rng;
+    uint32_t permille;
+} janet_verif_pt;
+void janet_verif_perturb(int site) {
+    if (site >= 0 && site < JANET_VERIF_NSITES) janet_atomic_inc(&janet_verif_site_hits[site]);
+    if (janet_verif_pt.mode == 0) {
+        const char *e = getenv("JANET_VERIF_PERTURB");
+        unsigned long long seed = 0;
+        unsigned pm = 0;
+        janet_verif_pt.mode = 1;
+        if (e && sscanf(e, "%llu:%u", &seed, &pm) == 2 && pm > 0) {
+            janet_verif_pt.mode = 2;
+            janet_verif_pt.permille = pm;
+            janet_verif_pt.rng = (seed + 1) * 0x9E3779B97F4A7C15ULL ^ (uint64_t)(uintptr_t) &janet_verif_pt;
+            if (!janet_verif_pt.rng) janet_verif_pt.rng = 1;
+        }
+    }
+    if (janet_verif_pt.mode != 2) return;
+    uint64_t x = janet_verif_pt.rng;
+    x ^= x << 13;
+    x ^= x >> 7;
+    x ^= x << 17;
+    janet_verif_pt.rng = x;
+    if ((x >> 20) % 1000 >= janet_verif_pt.permille) return;
+    if ((x >> 40) & 1) {
+        sched_yield();
+    } else {
+        struct timespec ts;
+        ts.tv_sec = 0;
+        ts.tv_nsec = 1000 + (long)((x >> 44) % 200000);
+        nanosleep(&ts, NULL);
+    }
+}
+#endif
+
 static void janet_chan_lock(JanetChannel *chan) {
     if (!janet_chan_is_threaded(chan)) return;
+#ifdef JANET_VERIF
+    janet_verif_perturb(0);
+#endif
     janet_os_mutex_lock((JanetOSMutex *) &chan->lock);
 }
 
 static void janet_chan_unlock(JanetChannel *chan) {
     if (!janet_chan_is_threaded(chan)) return;
     janet_os_mutex_unlock((JanetOSMutex *) &chan->lock);
+#ifdef JANET_VERIF
+    janet_verif_perturb(1);
+#endif
 }
 
 static void janet_chan_deinit(JanetChannel *chan) {
@@ -1581,6 +1631,9 @@ recur:
     } while (status == -1 && errno == EINTR);
     if (status > 0) {
         if (NULL != response.cb) {
+#ifdef JANET_VERIF
+            janet_verif_perturb(5);
+#endif
             response.cb(response.msg);
             janet_ev_dec_refcount();
         }
@@ -2147,6 +2200,9 @@ void janet_ev_deinit(void) {
  */
 void janet_ev_post_event(JanetVM *vm, JanetCallback cb, JanetEVGenericMessage msg) {
     vm = vm ? vm : &janet_vm;
+#ifdef JANET_VERIF
+    janet_verif_perturb(2);
+#endif
     janet_atomic_inc(&vm->listener_count);
 #ifdef JANET_WINDOWS
     JanetHandle iocp = vm->iocp;
@@ -2213,6 +2269,9 @@ static void *janet_thread_body(void *ptr) {
     janet_free(init);
     JanetSelfPipeEvent response;
     memset(&response, 0, sizeof(response));
+#ifdef JANET_VERIF
+    janet_verif_perturb(3);
+#endif
     response.msg = subr(msg);
     response.cb = cb;
     /* handle a bit of back pressure before giving up. */
@@ -2986,8 +3045,14 @@ static JanetEVGenericMessage janet_go_thread_subr(JanetEVGenericMessage args) {
     const uint8_t *endbytes = nextbytes + buffer->count;
     uint32_t flags = args.tag;
     args.tag = 0;
+#ifdef JANET_VERIF
+    janet_verif_perturb(4);
+#endif
     janet_init();
     janet_vm.sandbox_flags = (uint32_t) args.argi;
+#ifdef JANET_VERIF
+    if (janet_verif_sandbox_notify) janet_verif_sandbox_notify(janet_vm.sandbox_flags);
+#endif
     JanetTryState tstate;
     JanetSignal signal = janet_try(&tstate);
     if (!signal) {
